@@ -861,9 +861,11 @@ func FuzzParse(f *testing.F) {
 		if len(text) > 4000 || strings.Count(text, "(")+strings.Count(text, "[")+strings.Count(text, "{")+strings.Count(text, "-")+strings.Count(text, "not") > 400 {
 			return // deep nesting is C02's domain
 		}
-		err := checkText(TextCase{Text: text, Origin: "fuzz"})
+		c := TextCase{Text: text, Origin: "fuzz"}
+		err := checkText(c)
 		var ke *vk.KnownErr
-		if err != nil && !strings.HasPrefix(err.Error(), "harness:") && !errors.As(err, &ke) {
+		if err != nil && !strings.HasPrefix(err.Error(), "harness:") && !(errors.As(err, &ke) && vk.KnownActive(ke.ID)) {
+			vk.Violation("text", c, err) // replay file + VIOLATION line, as for the generated cases
 			t.Fatal(err)
 		}
 	})
